@@ -26,6 +26,14 @@ func checkC05(ci interface{}, st *Stats) error {
 
 func checkArith(s string, st *Stats) error {
 	want, werr := refEval(s)
+	if st != nil {
+		switch {
+		case len(s) > 300:
+			st.Class("source longer than 300 bytes")
+		case len(s) > 100:
+			st.Class("source longer than 100 bytes")
+		}
+	}
 	f := text.NewFile("f", []byte(s))
 	ctx := parsley.NewContext(parsley.NewFileSet(f), text.NewReader(f))
 	got, gerr := parsley.Evaluate(ctx, arithP)
@@ -72,11 +80,11 @@ func checkArith(s string, st *Stats) error {
 			}
 			switch {
 			case len(s) > 300:
-				st.Class("longer than 300 bytes")
+				st.Class("value, longer than 300 bytes")
 			case len(s) > 100:
-				st.Class("longer than 100 bytes")
+				st.Class("value, longer than 100 bytes")
 			case len(s) > 30:
-				st.Class("longer than 30 bytes")
+				st.Class("value, longer than 30 bytes")
 			}
 			if strings.Contains(s, "\n") {
 				st.Class("contains line break")
@@ -95,7 +103,27 @@ func init() {
 			if thorough() {
 				maxd = 8
 			}
-			s := genExpr(t, rapid.IntRange(0, maxd).Draw(t, "depth"))
+			var s string
+			if rapid.IntRange(0, 9).Draw(t, "long") == 0 {
+				// a long flat chain with small nested groups: hundreds of bytes, deep left recursion
+				sizes := []int{10, 15, 20, 30, 40}
+				if thorough() {
+					sizes = append(sizes, 60, 80, 100)
+				}
+				n := rapid.SampledFrom(sizes).Draw(t, "terms")
+				var sb strings.Builder
+				zeroFree = rapid.IntRange(0, 3).Draw(t, "zerofree") > 0
+				for i := 0; i < n; i++ {
+					if i > 0 {
+						sb.WriteString(rapid.SampledFrom([]string{"+", "-", "*", "/", "-", "/"}).Draw(t, "lop"))
+					}
+					sb.WriteString(genExpr(t, rapid.IntRange(0, 2).Draw(t, "ld")))
+				}
+				zeroFree = false
+				s = sb.String()
+			} else {
+				s = genExpr(t, rapid.IntRange(0, maxd).Draw(t, "depth"))
+			}
 			if rapid.IntRange(0, 5).Draw(t, "mutate") == 0 {
 				s = mutateSource(t, s, "+-*/() 1.x0\n")
 			}
